@@ -31,6 +31,11 @@ var (
 	bigRatOne    = big.NewRat(1, 1)
 )
 
+// A number written with an exponent is a few bytes of text, and math/big builds the exact value in full:
+// "1e100000000" (11 bytes) is a 332-million-bit integer.  An exact destination accepts what any peer can mean
+// (float64 ends at 2^1024, decimal128 at 10^6144) and refuses the text beyond.
+const maxBigIntBits = 1 << 16
+
 func (dec *Decoder) stringToBigInt(s string, t reflect.Type) *big.Int {
 	if bi, ok := new(big.Int).SetString(s, 10); ok {
 		return bi
@@ -99,6 +104,13 @@ func (dec *Decoder) decodeBigInt(t reflect.Type, tag byte, p **big.Int) {
 		*p = dec.readBigInt(t)
 	case TagDouble:
 		if bf := dec.readBigFloat(t); bf != nil {
+			if bf.MantExp(nil) > maxBigIntBits {
+				// bf.Int builds every bit of the integer: 2^exponent, whatever the length of the text
+				if dec.Error == nil {
+					dec.Error = CastError{Source: bigFloatType, Destination: t}
+				}
+				return
+			}
 			*p, _ = bf.Int(nil)
 		}
 	case TagUTF8Char:
